@@ -57,7 +57,7 @@ func handoverFiles(o Opts) *Input {
 		[]Label{{K: "Snap", T: 0}, {K: "SB", T: 0, J: 0, Q: 0}}, rep(Label{K: "R", T: 0}, 4),
 		[]Label{{K: "Rot"}}, rep(Label{K: "M", T: 0}, 4),
 		[]Label{{K: "Snap", T: 1}, {K: "SB", T: 1, J: 0, Q: qAll}, {K: "FB", T: 1, J: 0, IDs: ids}},
-		[]Label{{K: "M", T: 0}}, // Active.Release
+		[]Label{{K: "FB", T: 1, J: 0, IDs: ids, P: 2}, {K: "M", T: 0}}, // a fetch truly concurrent with Active.Release
 		[]Label{{K: "FB", T: 1, J: 0, IDs: ids}, {K: "FB", T: 0, J: 0, IDs: ids}, {K: "SB", T: 0, J: 0, Q: qAll}},
 		rep(Label{K: "M", T: 0}, 2),
 		[]Label{{K: "Snap", T: 2}, {K: "FB", T: 2, J: 0, IDs: ids}, {K: "SB", T: 2, J: 0, Q: 0}},
